@@ -155,7 +155,7 @@ pub async fn server(ctx: Ctx, obj: u64, svc: u64, slot: ServiceSlot, clients_lef
         if ctx.chance(1, 2) {
             seq += 1;
             let ev = ctx.below(2) as u32;
-            ctx.log.fact(&ctx.name, "emit", json!({"ev": ev, "k": seq}));
+            ctx.log.fact(&ctx.name, "emit", json!({"srv": svc, "ev": ev, "k": seq}));
             let _ = service.emit(ev, seq);
         }
     }
@@ -163,7 +163,7 @@ pub async fn server(ctx: Ctx, obj: u64, svc: u64, slot: ServiceSlot, clients_lef
     for _ in 0..ctx.below(3) {
         seq += 1;
         let ev = ctx.below(2) as u32;
-        ctx.log.fact(&ctx.name, "emit", json!({"ev": ev, "k": seq}));
+        ctx.log.fact(&ctx.name, "emit", json!({"srv": svc, "ev": ev, "k": seq}));
         let _ = service.emit(ev, seq);
         ctx.jitter().await;
     }
@@ -214,7 +214,7 @@ pub async fn caller(ctx: Ctx, slot: ServiceSlot, clients_left: Rc<Latch>, n: u64
                                     Ok(v) => ("ok", v.deserialize::<(u32, u32)>().ok()),
                                     Err(v) => ("errval", v.deserialize::<(u32, u32)>().ok()),
                                 };
-                                (cls.to_string(), json!({"t": t, "rt": v.map(|x| x.0), "n": v.map(|x| x.1)}))
+                                (cls.to_string(), json!({"t": t, "rt": v.map(|x| x.0 as i64).unwrap_or(-1), "n": v.map(|x| x.1 as i64).unwrap_or(-1)}))
                             }
                             Err(e) => (format!("err:{}", err_class(e)), json!({"t": t})),
                         };
@@ -230,7 +230,7 @@ pub async fn caller(ctx: Ctx, slot: ServiceSlot, clients_left: Rc<Latch>, n: u64
 
 /// Subscriber: subscribes to one event (or all), reads events until the stream ends or `k` were
 /// seen, then unsubscribes.
-pub async fn subscriber(ctx: Ctx, slot: ServiceSlot, all: bool, ev: u32, k: u64) {
+pub async fn subscriber(ctx: Ctx, srv: u64, slot: ServiceSlot, all: bool, ev: u32, k: u64) {
     let Some(id) = slot.get().await else { return };
     ctx.jitter().await;
     let Ok(mut proxy) = op!(ctx, "create_proxy", json!({}), Proxy::new(&ctx.handle, id)) else { return };
@@ -242,7 +242,7 @@ pub async fn subscriber(ctx: Ctx, slot: ServiceSlot, all: bool, ev: u32, k: u64)
     if sub.is_err() {
         return;
     }
-    ctx.log.fact(&ctx.name, "subscribed", json!({"all": all, "ev": ev}));
+    ctx.log.fact(&ctx.name, "subscribed", json!({"srv": srv, "all": all, "ev": ev}));
     let mut seen = 0;
     let opid = ctx.log.start(&ctx.name, "events", json!({}));
     while seen < k {
@@ -250,7 +250,7 @@ pub async fn subscriber(ctx: Ctx, slot: ServiceSlot, all: bool, ev: u32, k: u64)
             Some(e) => {
                 seen += 1;
                 let v: Option<u32> = e.deserialize().ok();
-                ctx.log.fact(&ctx.name, "event", json!({"ev": e.id(), "k": v}));
+                ctx.log.fact(&ctx.name, "event", json!({"srv": srv, "all": all, "sub": ev, "ev": e.id(), "k": v.map(|x| x as i64).unwrap_or(-1)}));
             }
             None => break,
         }
